@@ -136,6 +136,7 @@ pub fn run(ctx: &Ctx) -> i32 {
     sequence_level(ctx, &mut report, &schema);
     report.extra.insert("enums".into(), json!(REPLY_ENUMS.len()));
     report.extra.insert("control_fields_per_enum".into(), json!(65536));
+    crate::also_in_release_build(&mut report, "C15", ctx);
     report.finish()
 }
 
